@@ -193,11 +193,15 @@ def _r3_subpyramid(run, ev):
     el = ("elem", gp_sub)
     want = ("nt", "Pos", (ev0.expr("p.n + a.n", {"p": el, "a": apex}), ev0.expr("p.x + a.x * 2**p.n", {"p": el, "a": apex}),
                           ev0.expr("p.y + a.y * 2**p.n", {"p": el, "a": apex})))
-    allsub = [(pc, t, n) for pc, t, n in ys if (sym.cmp("Eq", na, num(0)), False) in pc and t[0] == "tuple" and t[1][0][0] == "nt"]
+    # (the `apex.n == 0` case may be a branch of its own or simply the general offset map with apex (0, 0, 0), which is the identity)
+    allsub = [(pc, t, n) for pc, t, n in ys if (sym.cmp("Eq", na, num(0)), True) not in pc and t[0] == "tuple" and t[1][0][0] == "nt"]
     subs = [x for x in allsub if el in atoms_of(x[1])]
     ancs = [x for x in allsub if el not in atoms_of(x[1])]
+    general = bool(subs) and not any(c[0] == sym.cmp("Eq", na, num(0)) for x in subs for c in x[0] if c[0] != "loop")
     if ok_plain:
         run.holds("C13.R3", f, plain[0][2], "no sub-pyramid: positions of generate_pos(self.depth) unchanged")
+    elif general and not plain:
+        run.holds("C13.R3", f, subs[0][2], "no separate branch for the whole pyramid: the general offset map is used with apex (0, 0, 0), where it is the identity")
     else:
         run.violated("C13.R3", f, None, "without a sub-pyramid the generic generator does not yield generate_pos(self.depth) as is", kind="plain-generator")
     if len(subs) != 1:
